@@ -28,6 +28,8 @@ def main():
         wt = '/tmp/seed2-' + prop
     if name.endswith('-3'):
         wt = '/tmp/seed3-' + prop
+    if name.endswith('-4'):
+        wt = '/tmp/seed4-' + prop
     so = os.path.join(wt, 'seed_out')
     meta = json.load(open(os.path.join(so, 'meta.json')))
     demo = meta['demo_cmd']
